@@ -194,12 +194,12 @@ macro_rules! getters_for {
                         _ => panic!("x().0 disagrees with the optional in the content"),
                     }
                     cover!(y.is_some(), "nested optional present");
-                    cover!(x0.is_none(), "outer optional absent");
+                    cover!(x0.is_some() && y.is_none(), "outer optional present, nested absent");
                     core::mem::forget(r);
                 }
             }
             pub fn three() {
-                let buf = nd::ascii_buf::<3>(b"ab");
+                let buf = nd::ascii_buf::<4>(b"ab");
                 let s = unsafe { core::str::from_utf8_unchecked(&buf) };
                 if let Some(r) = parse::<g::rules::g_three<'_, 1>>(s) {
                     // three nested optional levels are still flattened to one Option
@@ -271,7 +271,7 @@ harnesses! {
     #[kani::unwind(5)] fn c16_boxed_neg() [T0 S F] : "Q|g_neg = { !y ~ x }: x() only (no getter under a negative predicate)" { boxed::neg() }
     #[kani::unwind(5)] fn c16_boxed_nest() [T0 S F] : "Q|g_nest = { (x ~ y?)? ~ x }: nested options flattened, absent outer optional gives None" { boxed::nest() }
     #[kani::unwind(5)] fn c16_boxed_deep() [T0 S F] : "Q|g_deep = { g_opt ~ x }: only nodes matched directly by the rule's own expression" { boxed::deep() }
-    #[kani::unwind(5)] fn c16_boxed_three() [T0 S F] : "Q|g_three = { ((x? ~ \"b\")? ~ \"b\")? ~ y }: three nested optional levels flatten to one Option, Some exactly when the innermost matched" { boxed::three() }
+    #[kani::unwind(6)] fn c16_boxed_three() [T0 S F] : "Q|g_three = { ((x? ~ \"b\")? ~ \"b\")? ~ y }: three nested optional levels flatten to one Option, Some exactly when the innermost matched" { boxed::three() }
     #[kani::unwind(5)] fn c16_boxed_push() [T0 S F] : "Q|g_push = { (PUSH(x?) ~ y ~ DROP)? ~ y }: an optional mention inside PUSH inside an optional group flattens to one Option" { boxed::push() }
     #[kani::unwind(5)] fn c16_unboxed_pair() [T0 S F] : "Q|g_pair with box_only_if_needed (content stored inline)" { unboxed::pair() }
     #[kani::unwind(5)] fn c16_unboxed_opt() [T0 S F] : "Q|g_opt with box_only_if_needed" { unboxed::opt() }
